@@ -1,1 +1,92 @@
-/-! C15 — property theorems (stub; no obligations yet) -/
+import Ypv.Lemmas.Eval
+/-!
+# C15 — evaluation fails only with YAML Path errors
+
+Every partial Python operation the handlers use is a model function with a `crash` outcome
+(`pyGetItem`: `IndexError`; `pyIn`: `TypeError` on `None`; `pyKeyBetween`: `TypeError` on `str <= int`);
+the matcher may answer with any error.  The theorems say that behind the guards of the (fixed) code no
+crash outcome is reachable, for every document, every segment list, every integer index and slice
+bound.  The `example`s show the same operations crash without the guards — which is what the pinned
+code did (fixes/C15-1.patch).
+-/
+namespace Ypv.C15
+open Ypv Ypv.Eval Gen
+
+variable {mt : Matcher} {dsc : Desc}
+
+/-- **No crash outcome is reachable.**  If the matcher raises only YAML Path errors (or
+out-of-model), and so does the evaluation of attribute paths, then whatever `_get_required_nodes`
+raises — on any start node, for any segment list — is not a crash. -/
+theorem required_errors_are_ypath (hmt : MtSafe mt) (hd : DscSafe dsc) (segs : List ESeg) (r : Res) (e : Err)
+    (h : (required mt dsc segs r).2 = some e) : e.isCrash = false :=
+  noCrash_required hmt hd segs r e h
+
+/-- The same for the queries as the user asks them: `get_nodes(mustexist=True)`, `exists`,
+`get_nodes(mustexist=False)` (read behaviour), with attribute paths evaluated by the model itself. -/
+theorem queries_errors_are_ypath (hmt : MtSafe mt) (pa : Str → Except Err (List ESeg))
+    (hpa : ∀ a e, pa a = .error e → e.isCrash = false) (segs : List ESeg) (d : Node) :
+    (getRequired mt (Desc.ofParser mt pa) segs d).NoCrash
+    ∧ (∀ e, existsQ mt (Desc.ofParser mt pa) segs d = .error e → e.isCrash = false)
+    ∧ (getOptional mt (Desc.ofParser mt pa) segs d).NoCrash := by
+  have hd := dscSafe_ofParser hmt pa hpa
+  refine ⟨?_, ?_, ?_⟩
+  · unfold getRequired
+    split
+    · exact noCrash_nil
+    · refine noCrash_append (noCrash_required hmt hd _ _) ?_
+      split
+      · exact noCrash_fail rfl
+      · exact noCrash_nil
+  · intro e he
+    unfold existsQ at he
+    split at he
+    · cases he
+    · have := noCrash_required hmt hd segs (.real (d, Ctx.root))
+      unfold collapse at he
+      split at he
+      · cases he
+      · rename_i e' heq
+        simp only [Except.error.injEq] at he
+        subst he
+        split at heq
+        · rename_i e2 h2
+          cases heq
+          exact this _ h2
+        · cases heq
+  · unfold getOptional
+    split
+    · exact noCrash_nil
+    · exact noCrash_optional hmt hd _ _
+
+/-- The hypotheses are met by a concrete matcher (string equality on scalars, YAML Path error on
+containers), and the theorem then covers a query that raises. -/
+def sampleMt : Matcher := fun _ n t =>
+  match n with
+  | .scalar _ (.str s) => .ok (s == t)
+  | .scalar _ _ => .ok false
+  | _ => .error (.ypath .generic)
+
+example : MtSafe sampleMt := by
+  intro m n t e h
+  unfold sampleMt at h
+  split at h <;> cases h
+  rfl
+
+example : (required sampleMt Desc.none [.index 0] (.real (.set none [.str ['a']], Ctx.root))).2
+    = some (.ypath .generic) := by decide +kernel
+
+/-! What the unguarded operations of the pinned code do (each was reproduced on the real code):
+`[1][-2]`, `None`-membership, `'a' <= 2`. -/
+example : pyGetItem [Node.scalar none (.int 1)] (-2) = .error (.crash .indexError) := by decide +kernel
+example : pyGetItem [Node.scalar none (.int 1), Node.scalar none (.int 2)] 8 = .error (.crash .indexError) := by
+  decide +kernel
+example : pyIn ['a'] (.scalar none .null) = .error (.crash .typeError) := by decide +kernel
+example : pyKeyBetween ['a'] ['b'] (.int 2) = .error (.crash .typeError) := by decide +kernel
+/-- … and the guarded handlers on the same inputs. -/
+example : (required sampleMt Desc.none [.index (-2)] (.real (.seq none [.scalar none (.int 1)], Ctx.root))) = Gen.nil := by
+  decide +kernel
+example : (required sampleMt Desc.none [.slice ['1'] ['9']]
+    (.real (.seq none [.scalar none (.int 1), .scalar none (.int 2)], Ctx.root))).1.length = 1 := by
+  decide +kernel
+
+end Ypv.C15
